@@ -15,7 +15,13 @@ import (
 // Rng is splitmix64: every random choice of a harness run derives from one seed.
 type Rng struct{ s uint64 }
 
-func NewRng(seed uint64) *Rng { return &Rng{s: seed*0x9E3779B97F4A7C15 + 0x1234567} }
+// NewRng hashes the seed once so that seeds differing by a small amount give unrelated streams
+// (splitmix64 advances its state by a constant, so un-hashed nearby seeds would be shifts of one stream).
+func NewRng(seed uint64) *Rng {
+	r := &Rng{s: seed*0x9E3779B97F4A7C15 + 0x1234567}
+	r.s = r.U64() ^ (seed << 32)
+	return r
+}
 func (r *Rng) U64() uint64 {
 	r.s += 0x9E3779B97F4A7C15
 	z := r.s
